@@ -8,6 +8,10 @@ PID=$1; PATCH=$(realpath "$2"); shift 2
 M=/var/tmp/mut
 mkdir -p $M
 rsync -a --delete --exclude target --exclude .git /repo/ $M/repo/
+# rsync restores the original mtimes of files the previous mutant changed; cargo's
+# freshness check is mtime based, so touch them or the stale mutated build survives
+if [ -f $M/last_patched ]; then while read f; do [ -f "$M/repo/$f" ] && touch "$M/repo/$f"; done < $M/last_patched; fi
+grep '^+++ b/' "$PATCH" | sed 's#^+++ b/##' | cut -f1 > $M/last_patched
 rsync -a --delete --exclude target /verif/harness/ $M/h/
 find $M/h -name Cargo.toml | xargs sed -i "s#/repo/#$M/repo/#g"
 mkdir -p $M/verif && rsync -a --delete /verif/regress $M/verif/ 2>/dev/null; cp /verif/known_findings.json $M/verif/
